@@ -772,4 +772,223 @@ theorem ghost_all (E : Env) :
     exact seq_core (ih1 f p b) (fun s1 => ih2 s1 f p b)
 
 
+/-- `nest_cut` with a condition on the state too: the wrapped call site is the first node of every level, so it
+meets the state the outermost level was entered with -/
+theorem nest_cutQ (E : Env) (x : Node) (P : Cx → Prop) (Q : St → Prop)
+    (hblk : ∀ (c : Cx) (k : BKind), P c → P { c with frames := c.frames + k.frames, blocks := c.blocks + 1 })
+    (hfor : ∀ c, P c → P { c with scope := c.scope + 1, frames := c.frames + kBlock, blocks := c.blocks + 1 })
+    (hx : ∀ c s, P c → Q s → (render E c s x).out = .err .contextDepth) :
+    ∀ ws c s, P c → Q s → (render E c s (nest ws x)).out = .err .contextDepth := by
+  intro ws
+  induction ws with
+  | nil => intro c s hc hs; exact hx c s hc hs
+  | cons w ws ih =>
+    intro c s hc hs
+    cases w with
+    | blk k rest =>
+      simp only [nest, render]
+      rw [renderList_head_err (ih _ _ (hblk c k hc) hs)]
+      exact ih _ _ (hblk c k hc) hs
+    | forn m rest =>
+      simp only [nest, render]
+      have hm : ¬ (m + 1 = 0) := by omega
+      simp only [hm, if_false]
+      split
+      · rfl
+      · have h1 := ih _ s (hfor c hc) hs
+        rw [iter_head_err (by rw [renderList_head_err h1]; exact h1), renderList_head_err h1]
+        exact h1
+
+/-- **macro recursion**: a set `R` of template names; the body of each member defines a macro whose body begins
+(at any block depth) with a `render` of a member, and then calls that macro (at any block depth).  Two context
+copies per cycle.  In STRICT mode `{% render n %}` of a member fails with ContextDepthError in every context. -/
+theorem call_family_cut (E : Env) (hl : E.lax = false) (R : String → Prop)
+    (hclosed : ∀ n, R n → ∃ m ws' n' post' ws post,
+      lookup E.templates n = some (.macro m (nest ws' (.render n') :: post') :: nest ws (.call m) :: post) ∧ R n') :
+    ∀ k c s n, R n → E.depth + 1 - c.copyDepth = k → (render E c s (.render n)).out = .err .contextDepth := by
+  intro k
+  induction k using Nat.strongRecOn with
+  | ind k ih =>
+    intro c s n hn hk
+    obtain ⟨m, ws', n', post', ws, post, hlk, hn'⟩ := hclosed n hn
+    simp only [render, hlk]
+    split
+    · rfl
+    · rename_i h1
+      split
+      · rfl
+      · -- the body of `n` in the copied context: `macro`, then the wrapped `call`
+        rw [bodyLoop]
+        simp only [render]
+        -- the call, in any context of the same copy depth whose macro table binds `m` to the body
+        have hcall : ∀ (c' : Cx) (s' : St), c'.copyDepth = c.copyDepth + 1 →
+            lookup s'.macros m = some (nest ws' (.render n') :: post') →
+            (render E c' s' (.call m)).out = .err .contextDepth := by
+          intro c' s' hc' hm
+          simp only [render, hm]
+          split
+          · rfl
+          · rename_i h2
+            have hr := nest_cut E (.render n') (fun c'' => c''.copyDepth = c.copyDepth + 2)
+              (fun _ _ h => h) (fun _ h => h)
+              (fun c'' s'' hc'' => ih (E.depth + 1 - c''.copyDepth) (by omega) c'' s'' n' hn' rfl) ws'
+              (c'.copied true true c'.tname kCall) ⟨[], []⟩ (by simp only [Cx.copied]; omega)
+            rw [renderList_head_err hr]
+            exact hr
+        have hcut := nest_cutQ E (.call m) (fun c' => c'.copyDepth = c.copyDepth + 1)
+          (fun s' => lookup s'.macros m = some (nest ws' (.render n') :: post'))
+          (fun _ _ h => h) (fun _ h => h) hcall ws
+        have hq : lookup ({ macros := (m, nest ws' (.render n') :: post') :: ([] : Macros), stacks := [] } : St).macros m =
+            some (nest ws' (.render n') :: post') := by simp [lookup]
+        have h3 := hcut { c.copied true false n kPartial with scope := 5 }
+          { macros := (m, nest ws' (.render n') :: post') :: [], stacks := [] } rfl hq
+        rw [bodyLoop_head_strict hl h3]
+        exact h3
+
+/-- **block recursion** (a `block` rendered directly, i.e. with no block stack): each member's body begins (at any
+block depth) with a `block` whose body begins (at any block depth) with an `include` of a member.  Three scope
+pushes per cycle.  STRICT mode, `include` and `block` not disabled, no block stacks: ContextDepthError. -/
+theorem block_family_cut (E : Env) (hl : E.lax = false) (R : String → Prop)
+    (hclosed : ∀ n, R n → ∃ ws0 bn ws n' post post0,
+      lookup E.templates n = some (nest ws0 (.block bn (nest ws (.include n') :: post)) :: post0) ∧ R n') :
+    ∀ k c s n, R n → c.noInclude = false → c.noBlock = false → s.stacks = [] → E.depth + 1 - c.scope = k →
+      (render E c s (.include n)).out = .err .contextDepth := by
+  intro k
+  induction k using Nat.strongRecOn with
+  | ind k ih =>
+    intro c s n hn hni hnb hst hk
+    obtain ⟨ws0, bn, ws, n', post, post0, hlk, hn'⟩ := hclosed n hn
+    simp only [render, hlk]
+    rw [if_neg (by rw [hni]; simp)]
+    split
+    · rfl
+    · split
+      · rfl
+      · rename_i h1 h2
+        let P : Cx → Prop := fun c' => c'.scope ≥ c.scope + 2 ∧ c'.noInclude = false ∧ c'.noBlock = false
+        have hP1 : ∀ (c' : Cx) (k' : BKind), P c' → P { c' with frames := c'.frames + k'.frames, blocks := c'.blocks + 1 } :=
+          fun _ _ h => h
+        have hP2 : ∀ c', P c' → P { c' with scope := c'.scope + 1, frames := c'.frames + kBlock, blocks := c'.blocks + 1 } :=
+          fun _ h => ⟨by have := h.1; simp only; omega, h.2.1, h.2.2⟩
+        have hinc : ∀ c' s', P c' → s'.stacks = [] → (render E c' s' (.include n')).out = .err .contextDepth :=
+          fun c' s' hc' hs' => ih (E.depth + 1 - c'.scope) (by have := hc'.1; omega) c' s' n' hn' hc'.2.1 hc'.2.2 hs' rfl
+        have hblock : ∀ c' s', P c' → s'.stacks = [] →
+            (render E c' s' (.block bn (nest ws (.include n') :: post))).out = .err .contextDepth := by
+          intro c' s' hc' hs'
+          simp only [render]
+          rw [if_neg (by rw [hc'.2.2]; simp)]
+          simp only [hs', lookup, Option.getD]
+          split
+          · rfl
+          · have hi := nest_cutQ E (.include n') P (fun s'' => s''.stacks = []) hP1 hP2 hinc ws
+              { c' with scope := c'.scope + 1, frames := c'.frames + kCall, path := c'.path + 1 } s'
+              ⟨by have := hc'.1; simp only; omega, hc'.2.1, hc'.2.2⟩ hs'
+            rw [renderList_head_err hi]
+            exact hi
+        have hcut := nest_cutQ E _ P (fun s'' => s''.stacks = []) hP1 hP2 hblock ws0
+          { c with scope := c.scope + 2, tname := n, frames := c.frames + kPartial, path := c.path + 1 } s
+          ⟨Nat.le_refl _, hni, hnb⟩ hst
+        rw [bodyLoop_head_strict hl hcut]
+        exact hcut
+
+
+/-! ### the self-rendering partial with fan-out `f`: `a` = `probe; render a; … (f times)` -/
+
+def fanBodyN (f : Nat) : List Node := .probe 1 :: List.replicate f (.render "a")
+def fanEnvN (lax : Bool) (D f : Nat) : Env := { lax := lax, depth := D, templates := [("a", fanBodyN f)] }
+
+/-- `1 + f + f² + … + f^(k-1)` -/
+def geom (f : Nat) : Nat → Nat
+  | 0 => 0
+  | k + 1 => 1 + f * geom f k
+
+theorem geom_closed (f k : Nat) : (f - 1) * geom f k + 1 = f ^ k ∨ f = 0 := by
+  cases f with
+  | zero => exact Or.inr rfl
+  | succ g =>
+    left
+    induction k with
+    | zero => simp [geom]
+    | succ k ih =>
+      simp only [geom, Nat.add_sub_cancel] at *
+      rw [Nat.pow_succ, ← ih]
+      have e1 : g * (1 + (g + 1) * geom (g + 1) k) = g + g * geom (g + 1) k * (g + 1) := by
+        rw [Nat.mul_add, Nat.mul_one, Nat.mul_comm (g + 1) (geom (g + 1) k), ← Nat.mul_assoc]
+      have e2 : (g * geom (g + 1) k + 1) * (g + 1) = g * geom (g + 1) k * (g + 1) + (g + 1) := by
+        rw [Nat.add_mul, Nat.one_mul]
+      rw [e1, e2]; omega
+
+theorem fanN_lookup (lax : Bool) (D f : Nat) : lookup (fanEnvN lax D f).templates "a" = some (fanBodyN f) := by
+  simp [fanEnvN, lookup]
+
+/-- `m` consecutive `render a` nodes in the loop of `render_with_context`, LAX mode: none of them stops the loop -/
+theorem fanN_loop_lax (D f : Nat) (c : Cx) (N : Nat)
+    (h : ∀ s', ((render (fanEnvN true D f) c s' (.render "a")).out = .ok ∨
+                (render (fanEnvN true D f) c s' (.render "a")).out = .err .contextDepth) ∧
+               (render (fanEnvN true D f) c s' (.render "a")).evs.length = N) :
+    ∀ m s, (bodyLoop (fanEnvN true D f) c s (List.replicate m (.render "a"))).out = .ok ∧
+           (bodyLoop (fanEnvN true D f) c s (List.replicate m (.render "a"))).evs.length = m * N := by
+  intro m
+  induction m with
+  | zero => intro s; simp [bodyLoop]
+  | succ m ih =>
+    intro s
+    obtain ⟨ho, hn⟩ := h s
+    simp only [List.replicate_succ]
+    rw [bodyLoop]
+    have hl : (fanEnvN true D f).lax = true := rfl
+    have hne : ¬ (Err.contextDepth = Err.assertion) := by decide
+    rcases ho with ho | ho
+    · simp only [ho]
+      exact ⟨(ih _).1, by simp only [List.length_append, hn, (ih _).2]; rw [Nat.succ_mul]; omega⟩
+    · simp only [ho, hl, hne, if_true, if_false]
+      exact ⟨(ih _).1, by simp only [List.length_append, hn, (ih _).2]; rw [Nat.succ_mul]; omega⟩
+
+theorem fanN_body_lax (D f : Nat) (c : Cx) (s : St) (N : Nat)
+    (h : ∀ s', ((render (fanEnvN true D f) c s' (.render "a")).out = .ok ∨
+                (render (fanEnvN true D f) c s' (.render "a")).out = .err .contextDepth) ∧
+               (render (fanEnvN true D f) c s' (.render "a")).evs.length = N) :
+    (bodyLoop (fanEnvN true D f) c s (fanBodyN f)).out = .ok ∧
+    (bodyLoop (fanEnvN true D f) c s (fanBodyN f)).evs.length = 1 + f * N := by
+  unfold fanBodyN
+  rw [bodyLoop]
+  simp only [render]
+  obtain ⟨a, b⟩ := fanN_loop_lax D f c N h f s
+  exact ⟨a, by simp only [List.length_append, List.length_singleton, b]⟩
+
+/-- LAX mode: `{% render 'a' %}` at copy depth `D + 1 - k` executes `1 + f + … + f^(k-1)` probes. -/
+theorem fanN_render_lax (D f : Nat) (h4 : 4 ≤ D) :
+    ∀ k c s, c.copyDepth + k = D + 1 →
+      ((render (fanEnvN true D f) c s (.render "a")).out = .ok ∨
+       (render (fanEnvN true D f) c s (.render "a")).out = .err .contextDepth) ∧
+      (render (fanEnvN true D f) c s (.render "a")).evs.length = geom f k := by
+  intro k
+  induction k with
+  | zero =>
+    intro c s hk
+    have hd : (fanEnvN true D f).depth = D := rfl
+    have : c.copyDepth > (fanEnvN true D f).depth := by rw [hd]; omega
+    simp only [render, fanN_lookup, this, dite_true]
+    exact ⟨Or.inr trivial, rfl⟩
+  | succ k ih =>
+    intro c s hk
+    have hd : (fanEnvN true D f).depth = D := rfl
+    have h1 : ¬ c.copyDepth > (fanEnvN true D f).depth := by rw [hd]; omega
+    have h2 : ¬ 4 > (fanEnvN true D f).depth := by rw [hd]; omega
+    simp only [render, fanN_lookup, h1, h2, dite_false, if_false]
+    have hb := fanN_body_lax D f { c.copied true false "a" kPartial with scope := 5 } ⟨[], []⟩ (geom f k)
+      (fun s' => ih _ s' (by simp only [Cx.copied]; omega))
+    exact ⟨Or.inl hb.1, by rw [hb.2]; rfl⟩
+
+theorem fanN_template_lax (D f : Nat) (h4 : 4 ≤ D) :
+    (renderTemplate (fanEnvN true D f) "a").out = .ok ∧
+    (renderTemplate (fanEnvN true D f) "a").evs.length = geom f (D + 2) := by
+  have hd : (fanEnvN true D f).depth = D := rfl
+  have h2 : ¬ 4 > (fanEnvN true D f).depth := by rw [hd]; omega
+  simp only [renderTemplate, fanN_lookup, h2, if_false]
+  have hb := fanN_body_lax D f { Cx.root "a" with scope := 5 } ⟨[], []⟩ (geom f (D + 1))
+    (fun s' => fanN_render_lax D f h4 (D + 1) _ s' (by simp [Cx.root]))
+  exact ⟨hb.1, by rw [hb.2]; rfl⟩
+
+
 end LiquidVerif.Recur
